@@ -1815,4 +1815,208 @@ theorem Inv.evRelease {w : World} (h : Inv w) : Inv (evRelease w).1 := by
     · simp [World.opIds]
 
 
+theorem Inv.spinOnce {w : World} (h : Inv w) (i : Nat) : Inv (spinOnce w i).1 := by
+  unfold Pool.spinOnce
+  simp only
+  have h3 := ((h.evWrite i 1).evRead i 1 0).evAwait i
+  generalize Pool.evAwait (Pool.evRead (Pool.evWrite w i 1).1 i 1 0).1 i = r at h3 ⊢
+  obtain ⟨w3, o⟩ := r
+  cases o <;> first | exact h3 | exact h3.evDrop _
+
+theorem Inv.spinN (i : Nat) : ∀ (k : Nat) {w : World}, Inv w → Inv (spinN i k w)
+  | 0, w, h => h
+  | k + 1, w, h => by
+    unfold Pool.spinN
+    have h1 := h.spinOnce i
+    generalize Pool.spinOnce w i = r at h1 ⊢
+    obtain ⟨w', b⟩ := r
+    cases b
+    · exact h1
+    · exact Inv.spinN i k h1
+
+theorem Inv.evSpin {w : World} (h : Inv w) (i k : Nat) : Inv (evSpin w i k).1 := by
+  unfold Pool.evSpin
+  split
+  · exact h
+  · split
+    · exact h
+    · exact h.spinN i k
+
+/-- events that only use the pool through the managed ops, the stream adapter, handles and `pop`;
+    the raw `BufferPool::take(id)` / `reset(id)` with an arbitrary id are excluded (finding C07a) -/
+def Ev.safe : Ev → Bool
+  | .take _ => false
+  | .reset _ => false
+  | _ => true
+
+theorem Inv.step {w : World} (h : Inv w) (e : Ev) (hs : e.safe = true) : Inv (step w e).1 := by
+  unfold Pool.step
+  rw [if_neg (by rw [h.2.1]; simp)]
+  cases e with
+  | src kind size => exact h.evSrc kind size
+  | write i k => exact h.evWrite i k
+  | close i => exact h.evClose i
+  | read i len pos => exact h.evRead i len pos
+  | await i => exact h.evAwait i
+  | cancel i => exact h.evCancel i
+  | «open» i len => exact h.evOpen i len
+  | next i => exact h.evNext i
+  | dstream i => exact h.evDstream i
+  | drop id => exact h.evDrop id
+  | dropn k => exact h.evDropN k
+  | pop => exact h.evPop
+  | take id => simp [Ev.safe] at hs
+  | reset id => simp [Ev.safe] at hs
+  | release => exact h.evRelease
+  | spin i k => exact h.evSpin i k
+
+theorem Inv.run : ∀ (evs : List Ev) {w : World}, Inv w → (∀ e ∈ evs, e.safe = true) → Inv (run w evs)
+  | [], w, h, _ => h
+  | e :: rest, w, h, hs => by
+    unfold Pool.run
+    exact Inv.run rest (h.step e (hs e (by simp))) (fun e' he' => hs e' (by simp [he']))
+
+theorem count_range (n a : Nat) : (List.range n).count a = if a < n then 1 else 0 := by
+  induction n with
+  | zero => simp
+  | succ n ih =>
+    rw [List.range_succ, List.count_append, ih, count_singleton_ind]
+    by_cases h1 : a < n
+    · rw [if_pos h1, if_pos (by omega), ind_ne (by omega)]
+    · by_cases h2 : a = n
+      · subst h2; rw [if_neg (by omega), ind_self, if_pos (by omega)]
+      · rw [if_neg h1, ind_ne h2, if_neg (by omega)]
+
+/-- `BufControl::new`: the loop of `add_buffer(id, .., id)` on a fresh (zeroed) ring -/
+theorem addAll_spec : ∀ (l : List Nat) (p : Pool), p.tail = 0 → p.entries.length = p.n → (∀ id ∈ l, id < p.n) →
+    p.n ≤ 65536 →
+    (p.addAll l).entries.length = p.n ∧
+    (∀ j, j < p.n → (p.addAll l).entries[j]? = if j ∈ l then some j else p.entries[j]?) ∧
+    (p.addAll l).fault = p.fault ∧ (p.addAll l).kind = p.kind ∧ (p.addAll l).n = p.n ∧
+    (p.addAll l).slots = p.slots ∧ (p.addAll l).queue = p.queue ∧ (p.addAll l).tail = 0 ∧
+    (p.addAll l).head = p.head ∧ (p.addAll l).released = p.released ∧ (p.addAll l).freed = p.freed ∧
+    (p.addAll l).resets = p.resets
+  | [], p, ht, hl, _, _ => by simp [Pool.addAll, hl, ht]
+  | id :: rest, p, ht, hl, hlt, hn => by
+    have hid : id < p.n := hlt id (by simp)
+    have hidx : ringIdx p.tail16 id p.n = id := by
+      simp [ringIdx, Pool.tail16, ht, Nat.mod_eq_of_lt hid]
+    have hnf : decide (65536 ≤ p.tail16 + id) = false := by
+      simp [Pool.tail16, ht]; omega
+    obtain ⟨h1, h2, h3, h4, h5, h6, h7, h8, h9, h10, h11, h12⟩ := addAll_spec rest (p.addBuffer id id) ht
+      (by simp [Pool.addBuffer, hl]) (fun x hx => hlt x (by simp [hx])) hn
+    simp only [Pool.addAll]
+    refine ⟨h1, ?_, ?_, h4, h5, h6, h7, h8, h9, h10, h11, h12⟩
+    · intro j hj
+      rw [h2 j hj]
+      by_cases hjr : j ∈ rest
+      · simp [hjr]
+      · rw [if_neg hjr]
+        simp only [Pool.addBuffer, hidx, List.getElem?_set, List.mem_cons, hjr, or_false]
+        by_cases hij : id = j
+        · subst hij; simp [hl, hid]
+        · rw [if_neg hij, if_neg (fun e => hij e.symm)]
+    · rw [h3]; simp [Pool.addBuffer, hnf]
+
+theorem Pool.new_inv {kind : PKind} {nb : Nat} {p : Pool} (h : Pool.new kind nb = some p) :
+    PoolInv p (fun _ => 0) (fun _ => 0) 0 0 ∧ p.released = false ∧ p.kind = kind ∧
+    p.freeIds = List.range p.n ∧ nb ≤ p.n ∧ p.resets = 0 := by
+  unfold Pool.new at h
+  by_cases hc : nb = 0 ∨ 32768 < nb
+  · rw [if_pos hc] at h; cases h
+  · rw [if_neg hc] at h
+    obtain ⟨j, hj, hpow, hle⟩ := nextPow2_pow nb (by omega)
+    have hnpos : 0 < nextPow2 nb := by rw [hpow]; exact Nat.pow_pos (by omega)
+    have hn32 : nextPow2 nb ≤ 32768 := pow_le_32768 hj hpow
+    cases kind with
+    | fb =>
+      simp only [Option.some.injEq] at h
+      subst h
+      refine ⟨⟨⟨hnpos, ⟨j, hj, hpow⟩, ?_, ?_, Nat.le_refl _, rfl, ?_, ?_, ?_⟩, ?_, ?_, ?_, ?_⟩, rfl, rfl, rfl, by rw [hpow]; exact hle, rfl⟩
+      · intro _; simp
+      · intro h'; cases h'
+      · intro h'; cases h'
+      · intro _; rfl
+      · intro h'; cases h'
+      · intro a; simp [Pool.freeIds, count_range]
+      · intro _; simp [Pool.freeIds]
+      · intro _ a ha
+        have ha : a < nextPow2 nb := ha
+        simp [Pool.freeIds, count_range, ha]
+      · intro h'; cases h'
+    | ring =>
+      simp only [Option.some.injEq] at h
+      subst h
+      let p0 : Pool :=
+        { kind := .ring, n := nextPow2 nb, slots := (List.range (nextPow2 nb)).map some, queue := [],
+          entries := List.replicate (nextPow2 nb) 0, tail := 0, head := 0, released := false, freed := [],
+          resets := 0, fault := false }
+      obtain ⟨h1, h2, h3, h4, h5, h6, h7, h8, h9, h10, h11, h12⟩ := addAll_spec (List.range (nextPow2 nb)) p0 rfl
+        (by simp [p0]) (by intro x hx; simpa [p0] using hx) (by show nextPow2 nb ≤ 65536; omega)
+      have hwin : ((p0.addAll (List.range (nextPow2 nb))).commit (nextPow2 nb)).window = List.range (nextPow2 nb) := by
+        simp only [Pool.window, Pool.commit, h8, h9, h5]
+        show (List.range (0 + nextPow2 nb - 0)).map _ = _
+        rw [show 0 + nextPow2 nb - 0 = nextPow2 nb by omega]
+        conv => rhs; rw [← List.map_id (List.range (nextPow2 nb))]
+        apply List.map_congr_left
+        intro x hx
+        have hx : x < nextPow2 nb := by simpa using hx
+        have hx' : (0 + x) % 65536 % nextPow2 nb = x := by
+          rw [Nat.zero_add, Nat.mod_eq_of_lt (show x < 65536 by omega), Nat.mod_eq_of_lt hx]
+        rw [hx', List.getD_eq_getElem?_getD, h2 x hx]
+        simp [hx]
+      have hfree : ((p0.addAll (List.range (nextPow2 nb))).commit (nextPow2 nb)).freeIds = List.range (nextPow2 nb) := by
+        simp only [Pool.freeIds, Pool.commit, h10, h4]
+        exact hwin
+      refine ⟨⟨⟨?_, ?_, ?_, ?_, ?_, ?_, ?_, ?_, ?_⟩, ?_, ?_, ?_, ?_⟩, ?_, ?_, ?_, ?_, ?_⟩
+      · show 0 < (p0.addAll _).n; rw [h5]; exact hnpos
+      · show ∃ j, j ≤ 15 ∧ (p0.addAll _).n = 2 ^ j; rw [h5]; exact ⟨j, hj, hpow⟩
+      · intro _; show (p0.addAll _).slots.length = (p0.addAll _).n; rw [h6, h5]; simp [p0]
+      · intro _; show (p0.addAll _).entries.length = (p0.addAll _).n; rw [h1, h5]
+      · show (p0.addAll _).head ≤ (p0.addAll _).tail + _; rw [h9]; simp [p0]
+      · show (p0.addAll _).fault = false; rw [h3]
+      · intro h'; have : (p0.addAll (List.range (nextPow2 nb))).released = true := h'; rw [h10] at this; cases this
+      · intro _; show (p0.addAll _).freed = []; rw [h11]
+      · intro _; show (p0.addAll _).tail + _ = (p0.addAll _).n + (p0.addAll _).resets; rw [h8, h5, h12]; simp [p0]
+      · intro a
+        rw [hfree, count_range]
+        show _ + 0 + 0 + (p0.addAll _).freed.count a = if a < (p0.addAll _).n then 1 else 0
+        rw [h11, h5]; simp [p0]
+      · intro _
+        rw [hfree]
+        show _ + 0 + 0 = (p0.addAll _).n
+        rw [h5]; simp [p0]
+      · intro _ a ha
+        have ha : a < (p0.addAll (List.range (nextPow2 nb))).n := ha
+        rw [h5] at ha
+        have ha : a < nextPow2 nb := ha
+        rw [hfree, count_range]
+        show (p0.addAll _).slots[a]? = _
+        rw [h6]
+        simp [p0, ha]
+      · intro h'; have : (p0.addAll (List.range (nextPow2 nb))).released = true := h'; rw [h10] at this; cases this
+      · show (p0.addAll _).released = false; rw [h10]
+      · show (p0.addAll _).kind = .ring; rw [h4]
+      · rw [hfree]; show _ = List.range (p0.addAll _).n; rw [h5]
+      · show nb ≤ (p0.addAll _).n; rw [h5]; show nb ≤ nextPow2 nb; rw [hpow]; exact hle
+      · show (p0.addAll _).resets = 0; rw [h12]
+
+theorem World.init_inv {kind : PKind} {nb len : Nat} {w : World} (h : World.init kind nb len = some w) :
+    Inv w ∧ w.pool.kind = kind ∧ nb ≤ w.pool.n := by
+  unfold World.init at h
+  cases hp : Pool.new kind nb with
+  | none => rw [hp] at h; cases h
+  | some p =>
+    rw [hp] at h
+    simp only [Option.map_some, Option.some.injEq] at h
+    subst h
+    obtain ⟨h1, h2, h3, h4, h5, _⟩ := Pool.new_inv hp
+    refine ⟨⟨h1.congr ?_ ?_ ?_ ?_, rfl, ?_⟩, h3, h5⟩
+    · intro a; simp [World.cs, World.selIds]
+    · intro a; simp [World.ch, World.opIds]
+    · simp [World.selIds]
+    · simp [World.opIds]
+    · intro hr; have : p.released = true := hr; rw [h2] at this
+
+
 end Compio.Pool
